@@ -55,6 +55,8 @@ type fctx struct {
 	ghosts   map[string]Term
 	oldEnv   *Env
 	closures map[types.Object]*ast.FuncLit
+	measure0 []Term // entry value of the function-level decreases measure
+	hidden   []types.Object // hidden index variables of enclosing range loops (innermost last)
 }
 
 type Exec struct {
@@ -328,9 +330,17 @@ func (x *Exec) zero(t types.Type) Term {
 		}
 		r = x.W.Mk(so, vals...)
 	case *types.Pointer:
-		r = x.zero(u.Elem())
-		if r.Sort != so {
-			r = x.opaqueZero(so, t)
+		// the nil pointer is a distinguished (otherwise unconstrained) value of the pointee sort
+		name := "nilptr_" + sanitize(string(so))
+		r = x.W.DeclareConst(name, so)
+		pn := "isnilptr_" + sanitize(string(so))
+		x.W.DeclareFun(pn, []Sort{so}, SBool)
+		if !x.W.constSeen[name+"$ax"] {
+			x.W.constSeen[name+"$ax"] = true
+			x.W.Facts = append([]string{"(" + pn + " " + name + ")"}, x.W.Facts...)
+			for _, o := range x.W.Obls {
+				o.FactsN++
+			}
 		}
 	case *types.Map:
 		ks, vs := x.W.SortOf(u.Key()), x.W.SortOf(u.Elem())
@@ -978,7 +988,12 @@ func (x *Exec) scopeAt(env *Env, pos token.Pos) *Scope {
 		sc.locals[k] = v
 	}
 	file := cx.fi.Pkg.Types.Scope().Innermost(pos)
+	hidden := append([]types.Object{}, cx.hidden...)
 	sc.resolve = func(name string) (Term, bool) {
+		if name == "$i" && len(hidden) > 0 {
+			v, ok := env.vars[hidden[len(hidden)-1]]
+			return v, ok
+		}
 		if file == nil {
 			return Term{}, false
 		}
@@ -1041,6 +1056,12 @@ func (x *Exec) execLoopCommon(node ast.Node, bodyPos token.Pos, env *Env, label 
 		unsupported("loop in term mode")
 	}
 	tag := fmt.Sprintf("loop%d", ord)
+	entryEnv := env.clone()
+	loopScope := func(e *Env) *Scope {
+		sc := x.scopeAt(e, bodyPos)
+		sc.entry = x.scopeAt(entryEnv, bodyPos)
+		return sc
+	}
 	evalInvs := func(e *Env, phase string, assertIt bool) {
 		if extraInv != nil {
 			inv := extraInv(e)
@@ -1053,7 +1074,7 @@ func (x *Exec) execLoopCommon(node ast.Node, bodyPos token.Pos, env *Env, label 
 		if lc == nil {
 			return
 		}
-		sc := x.scopeAt(e, bodyPos)
+		sc := loopScope(e)
 		for i, c := range lc.Invariants {
 			t := sc.EvalBool(c.Expr)
 			if assertIt {
@@ -1086,7 +1107,7 @@ func (x *Exec) execLoopCommon(node ast.Node, bodyPos token.Pos, env *Env, label 
 	evalInvs(head, "", false)
 	var variant0 Term
 	if lc != nil && lc.Decreases != nil {
-		variant0 = x.scopeAt(head, bodyPos).Eval(lc.Decreases.Expr)
+		variant0 = loopScope(head).Eval(lc.Decreases.Expr)
 	}
 	// 4. guard
 	fr := &frame{kind: "loop", label: label}
@@ -1101,7 +1122,7 @@ func (x *Exec) execLoopCommon(node ast.Node, bodyPos token.Pos, env *Env, label 
 		o.Expect = "sat"
 	}
 	if lc != nil {
-		hsc := x.scopeAt(bodyEnv, bodyPos)
+		hsc := loopScope(bodyEnv)
 		for i, c := range lc.Hints {
 			x.assert(bodyEnv, tag+"/hint:"+clauseName(c, i), "", hsc.EvalBool(c.Expr))
 		}
@@ -1115,7 +1136,7 @@ func (x *Exec) execLoopCommon(node ast.Node, bodyPos token.Pos, env *Env, label 
 	if end != nil {
 		evalInvs(end, "preserved", true)
 		if variant0.S != "" {
-			v1 := x.scopeAt(end, bodyPos).Eval(lc.Decreases.Expr)
+			v1 := loopScope(end).Eval(lc.Decreases.Expr)
 			x.assert(end, tag+"/variant", "", And(Cmp(">=", variant0, IntLit(0)), Cmp("<", v1, variant0)))
 		}
 	}
@@ -1218,6 +1239,8 @@ func (x *Exec) execRange(s *ast.RangeStmt, env *Env, label string) *Env {
 		idx := types.NewVar(s.Pos(), x.cx.fi.Pkg.Types, "$i", types.Typ[types.Int])
 		env.vars[idx] = IntLit(0)
 		mod[idx] = true
+		x.cx.hidden = append(x.cx.hidden, idx)
+		defer func() { x.cx.hidden = x.cx.hidden[:len(x.cx.hidden)-1] }()
 		if keyObj != nil {
 			mod[keyObj] = true
 			if _, ok := env.vars[keyObj]; !ok {
@@ -1259,6 +1282,8 @@ func (x *Exec) execRange(s *ast.RangeStmt, env *Env, label string) *Env {
 			idx := types.NewVar(s.Pos(), x.cx.fi.Pkg.Types, "$i", types.Typ[types.Int])
 			env.vars[idx] = IntLit(0)
 			mod[idx] = true
+			x.cx.hidden = append(x.cx.hidden, idx)
+			defer func() { x.cx.hidden = x.cx.hidden[:len(x.cx.hidden)-1] }()
 			if keyObj != nil {
 				mod[keyObj] = true
 				if _, ok := env.vars[keyObj]; !ok {
